@@ -582,7 +582,8 @@ fn serve(horizon_ms: u64) {
           match net::parse(&case) {
             Some((n, wrap)) => {
               let mut c2 = case.clone();
-              c2["src"] = json!(n.program(wrap));
+              let heap = case.get("heap").and_then(|v| v.as_bool()).unwrap_or(false);
+              c2["src"] = json!(n.program_mode(wrap, heap));
               let (mut res, panicked) = run_case(&c2);
               net::finish(&n, &mut res);
               (res, panicked)
